@@ -345,6 +345,9 @@ func genHdr(r *vu.Rng) hdrSpec {
 	if wild && r.Bool() {
 		nopt = r.Intn(70)
 	}
+	if r.Chance(1, 10) {
+		nopt = []int{1, 2, 3, 5, 6, 7, 41, 42, 43, 44, 60}[r.Intn(11)]
+	}
 	s := hdrSpec{version: 4, length: 20 + nopt, tos: genInt(r, 8, false), totalLen: genInt(r, 16, false), id: genInt(r, 16, false),
 		flags: r.Intn(8), fragOff: genInt(r, 13, false), ttl: genInt(r, 8, false), protocol: genInt(r, 8, false), cksum: genInt(r, 16, false),
 		src: r.Bytes(4), dst: r.Bytes(4), options: r.Bytes(nopt)}
